@@ -148,6 +148,9 @@ theorem membership_history (w : World τ) (ops : List Op) (a : Addr) :
       cases hA : execute tgt w.self w.st w.ts au o c f args with
       | error e => simp [memberAfter]
       | ok r => obtain ⟨ts', v⟩ := r; simp [memberAfter]
+    | upgradeMigrate au =>
+      simp only [step]
+      by_cases h1 : w.st.owner ∈ au <;> simp [h1, memberAfter]
 
 /-- the set changes only by the owner's authorised add of an absent address or remove of a present one -/
 theorem set_changes_only_by_owner (w : World τ) (op : Op) (a : Addr)
@@ -187,6 +190,7 @@ theorem set_changes_only_by_owner (w : World τ) (op : Op) (a : Addr)
     cases hA : execute tgt w.self w.st w.ts au o c f args with
     | error e => simp [hA] at h
     | ok r => obtain ⟨ts', v⟩ := r; simp [hA] at h
+  | upgradeMigrate au => exact absurd (by rw [step_upgradeMigrate_fst]) h
 
 /-- forwarding never changes the operators contract's own state; only `execute` can change the target's -/
 theorem execute_keeps_state (w : World τ) (auths : List Addr) (o c : Addr) (f : Bytes) (args : List ScVal) :
@@ -221,6 +225,7 @@ theorem target_touched_only_by_execute (w : World τ) (op : Op) (h : (step tgt w
     | ok r =>
       have hi := (execute_iff tgt w.self w.st w.ts au o c f args).1 ⟨_, hA⟩
       exact ⟨au, o, c, f, args, rfl, hi.1, hi.2.1⟩
+  | upgradeMigrate au => exact absurd (by rw [step_upgradeMigrate_fst]) h
 
 theorem rejected_unchanged (w : World τ) (op : Op) (e : Err) (h : (step tgt w op).2 = .err e) :
     (step tgt w op).1 = w := by
@@ -245,8 +250,18 @@ theorem rejected_unchanged (w : World τ) (op : Op) (e : Err) (h : (step tgt w o
     cases hA : execute tgt w.self w.st w.ts au o c f args with
     | error e => simp
     | ok r => obtain ⟨ts', v⟩ := r; simp [hA] at h
+  | upgradeMigrate au => exact step_upgradeMigrate_fst tgt w au
 
 /-! ### non-vacuity (the model RUN in the kernel on a concrete history) -/
+/-- the owner's administrative step — upgrade to the same code and migration — leaves the operator set, the owner and the
+    target untouched, whether it is accepted or refused (the history theorems above range over this operation as well) -/
+theorem admin_step_changes_nothing (w : World τ) (auths : List Addr) :
+    (step tgt w (.upgradeMigrate auths)).1 = w ∧
+    ((step tgt w (.upgradeMigrate auths)).2 = .ok [] ↔ w.st.owner ∈ auths) := by
+  refine ⟨step_upgradeMigrate_fst tgt w auths, ?_⟩
+  simp only [step]
+  split <;> simp_all
+
 section NonVacuity
 open Cgp.Toy
 
